@@ -474,6 +474,8 @@ def run(ck):
                     km = em[d].split()[0] if d < len(em) else "-"
                     # first difference inside a solver's computeNewCorrection (or a value it produced), or in the loops
                     control = not (ka == km or {ka, km} <= {"U", "L", "M", "K", "D"})
+                    if ka == km and ka in ("E", "R", "K", "U") and ea[d].split()[1] != em[d].split()[1]:
+                        control = True      # same hook, different value of iter
                     site = BASE if control else SITE[s]
                     report("corr:%s:%s" % (site, "control-flow" if control else "values"),
                            "trace of the real %s solver differs from the model at event %d (%s vs %s); the property's predicate still holds on the implementation trace"
